@@ -326,7 +326,7 @@ class Kernel:
                     e = e[0].orelse
                 for test, body in branches:
                     tt = unparse(test).replace(" ", "")
-                    if tt in (f"{nparts}>{cp}", f"{cp}<{nparts}", f"len({lst})>{cp}"):
+                    if tt in (f"{nparts}>{cp}", f"{cp}<{nparts}", f"len({lst})>{cp}", f"{cp}<len({lst})"):
                         found_gt = True
                         okslice = False
                         for b in body:
@@ -340,7 +340,7 @@ class Kernel:
                         else:
                             self.fail("R-C03-4", q, f"when more partitions are detected than requested the list must be cut to its first "
                                                     f"{cp} entries ({lst}[:{cp}]): the dropped ones must be the smallest")
-                    elif tt in (f"{nparts}<{cp}", f"{cp}>{nparts}", f"len({lst})<{cp}"):
+                    elif tt in (f"{nparts}<{cp}", f"{cp}>{nparts}", f"len({lst})<{cp}", f"{cp}>len({lst})"):
                         found_lt = True
                         okpad = self._pad_ok(body, lst, cp)
                         if okpad:
@@ -348,10 +348,10 @@ class Kernel:
                         else:
                             self.fail("R-C03-4", q, f"when fewer partitions are detected than requested exactly {cp} - len({lst}) zero "
                                                     "partitions must be APPENDED")
-                    elif tt in (f"{nparts}>={cp}", f"{nparts}<={cp}"):
+                    elif tt in (f"{nparts}>={cp}", f"{nparts}<={cp}", f"{cp}<={nparts}", f"{cp}>={nparts}"):
                         # non-strict also fine if the action is the identity at equality
-                        found_gt = found_gt or ">=" in tt
-                        found_lt = found_lt or "<=" in tt
+                        found_gt = found_gt or tt in (f"{nparts}>={cp}", f"{cp}<={nparts}")
+                        found_lt = found_lt or tt in (f"{nparts}<={cp}", f"{cp}>={nparts}")
         if not found_none:
             self.fail("R-C03-4", tail[0] if tail else self.loop, f"the '{cp} is None' / requested-count case split is missing")
         elif not (found_gt and found_lt):
